@@ -15,7 +15,7 @@ def run(c):
         return
     _, ev2 = pc.enumerate_programs(c, "C04", 5 if c.quick else 6, ["sum", "lt"], "holes", holes=True, every=25 if c.quick else 100)
     n = 1 if c.quick else 15
-    ev3 = pc.generated(c, "C04", [("corpus", 0), ("punch", 500 * n), ("hopunch", 0), ("typed", 300 * n, 3), ("typelevel", 0), ("crossop", 0), ("dependent", 200 * n), ("alias", 100 * n), ("recursion", 40 * n, 8), ("bigint", 60 * n), ("groups", 200 * n), ("lettypes", 0), ("holeparam", 0), ("holescope", 500 * n), ("groundindex2", 160 * n), ("nestgroup", 240 * n)])
+    ev3 = pc.generated(c, "C04", [("corpus", 0), ("punch", 500 * n), ("hopunch", 0), ("typed", 300 * n, 3), ("typelevel", 0), ("crossop", 0), ("dependent", 200 * n), ("alias", 100 * n), ("recursion", 40 * n, 8), ("bigint", 60 * n), ("groups", 200 * n), ("lettypes", 0), ("holeparam", 0), ("holescope", 500 * n), ("groundindex2", 160 * n), ("nestgroup", 240 * n), ("holedef", 0)])
     allp = pc.validate(c, "C04", [ev1, ev2, ev3], "events")
 
     def mut(ev):
